@@ -9,11 +9,15 @@ pub mod sched;
 mod pool;
 mod net20;
 mod net21;
+mod beans;
+mod grow;
+mod local;
 mod ows;
 mod sockio;
 mod sockopt;
 mod time;
 mod timed;
+mod trap;
 
 pub fn lookup(name: &str) -> Option<AreaFn> {
     match name {
@@ -28,6 +32,10 @@ pub fn lookup(name: &str) -> Option<AreaFn> {
         "sockio" => Some(sockio::run),
         "sockopt" => Some(sockopt::run),
         "timed" => Some(timed::run),
+        "local" => Some(local::run),
+        "beans" => Some(beans::run),
+        "grow" => Some(grow::run),
+        "trap" => Some(trap::run),
         _ => None,
     }
 }
